@@ -15,7 +15,7 @@ Oracles (all three must agree):
                     nor fclose; open/close accounting per op and in total
   twin vs model   - a disagreement is a defect of this harness: HarnessBug (exit 3), never a VIOLATION
 """
-import os, shutil, hashlib
+import os, shutil, hashlib, tempfile
 from hypothesis import strategies as st
 from .. import build, core
 from ..core import Result, HarnessBug
@@ -650,21 +650,23 @@ def _listing(steps, upto):
     return "; ".join(out)
 
 
-def _cleanup(d):
-    if d and d.startswith("/tmp/vfc20-"):
-        shutil.rmtree(d, ignore_errors=True)
-
-
 def run_case(ctx, case):
+    # one scratch directory per evaluation, removed whatever happens to the executor (core re-runs
+    # a crashing case in a second child, so the executor cannot be trusted to clean up itself)
+    tmpdir = tempfile.mkdtemp(prefix="vfc20-", dir="/tmp")
+    try:
+        return _run_case(ctx, case, tmpdir)
+    finally:
+        shutil.rmtree(tmpdir, ignore_errors=True)
+
+
+def _run_case(ctx, case, tmpdir):
     plan = Plan(case)
     steps = plan.steps
     ex = ctx.executor("ex_file")
-    obs = ex.run("\n".join(s.line for s in steps))
+    obs = ex.run("\n".join([steps[0].line + " " + tmpdir] + [s.line for s in steps[1:]]))
     ev = sorted(plan.events)
     nontrivial = bool((plan.writes_separated and plan.span_read) or plan.closed_use)
-    tmpdir = None
-    if obs and obs[0].startswith("ok dir="):
-        tmpdir = _parse(obs[0]).get("dir")
 
     def fail(i, msg):
         where = "op #%d `%s`" % (i, _short(steps[i].line, 70)) if i is not None else "end of case"
@@ -673,17 +675,14 @@ def run_case(ctx, case):
 
     # the executor died or hung?
     if obs and (obs[-1].startswith("CRASH") or obs[-1] == "HANG"):
-        _cleanup(tmpdir)
         i = len(obs) - 1
         if i < len(steps):
             return fail(i, "executor %s" % _short(obs[-1], 300))
         return fail(None, "executor %s while finishing the case" % _short(obs[-1], 300))
     for o in obs:
         if o.startswith("HARNESS-BUG"):
-            _cleanup(tmpdir)
-            raise HarnessBug("ex_file: %s (case %s)" % (o, [s.line for s in steps]))
+                raise HarnessBug("ex_file: %s (case %s)" % (o, [s.line for s in steps]))
     if len(obs) < len(steps):
-        _cleanup(tmpdir)
         raise HarnessBug("short answer from ex_file: %d lines for %d ops" % (len(obs), len(steps)))
 
     b0 = _parse(obs[0])
